@@ -318,3 +318,11 @@ def workload(ctx, repo):
         if k % 499 == 0:
             ctx.sample(case)
         run_case(ctx, repo, case)
+        if k % 5 == 0 and case["op"] in ("strftime", "roundtrip"):
+            tw = gen.twin_of(rng, MODE, case["p"])
+            if tw is not None and 0 <= tw["year"] <= 9999:
+                tw.pop("num_expanded_year_digits", None)
+                case = dict(case, p=tw)
+                ctx.case = case
+                ctx.ev("cases.twin")
+                run_case(ctx, repo, case)
